@@ -134,6 +134,37 @@ def ideal_reads(data, sizes):
     return out
 
 
+def reader_contract(data, sizes, have):
+    """The property as an io.Reader contract over `data` (the requested bases):
+    every call delivers the next bytes in order (at most the buffer size), never anything else;
+    io.EOF only once everything has been delivered, and then on every call with a non-empty buffer;
+    a call with a non-empty buffer while bases remain makes progress; no other error.
+    (When EOF accompanies the last bytes or comes with the next call is left open.)"""
+    pos, i = 0, 0
+    for k in sizes:
+        if k < 0:
+            pos = 0
+            continue
+        if i >= len(have):
+            return ('read:short-script', 'fewer Read results than calls')
+        d, err = have[i]
+        i += 1
+        if len(d) > k:
+            return ('read:data', 'more bytes than the buffer holds')
+        if d != data[pos:pos + len(d)]:
+            return ('read:data', 'call %d returned %s, the next bases are %s' % (i, bytes(d), bytes(data[pos:pos + max(len(d), 1)])))
+        pos += len(d)
+        if err == 1:
+            if pos != len(data):
+                return ('read:eof', 'io.EOF after %d of %d bases' % (pos, len(data)))
+        elif err == 0:
+            if k > 0 and not d:
+                return ('read:eof' if pos == len(data) else 'read:stall', 'nothing read and no io.EOF with a buffer of %d and %d bases left' % (k, len(data) - pos))
+        else:
+            return ('read:error', 'error class %d' % err)
+    return None
+
+
 def features(f, ri=None):
     ft = []
     recs = f['recs']
@@ -221,9 +252,9 @@ def oracle(case, o):
             continue
         want = ideal_reads(seq[s:e], q['sizes'])
         have = [(r['data'], r['err']) for r in qo['reads']]
-        if have != want:
-            kind = 'read:data' if [h[0] for h in have] != [w[0] for w in want] else 'read:eof'
-            bad.append((fsig(kind, ft), 'record %s [%d,%d) sizes %s: got %s want %s' % (bytes(q['name']), s, e, q['sizes'], have, want), want))
+        why = reader_contract(seq[s:e], q['sizes'], have)
+        if why:
+            bad.append((fsig(why[0], ft), 'record %s [%d,%d) sizes %s: %s; got %s, an ideal reader gives %s' % (bytes(q['name']), s, e, q['sizes'], why[1], have, want), want))
     return bad
 
 
@@ -458,13 +489,13 @@ FAMILIES = [
 
 
 def gen_cases(rng, tier):
-    n = dict(plain=30, blank=36, empty=10, quote=4) if tier == 'quick' else dict(plain=400, blank=400, empty=100, quote=40)
+    n = dict(plain=24, blank=30, empty=8, quote=3) if tier == 'quick' else dict(plain=400, blank=400, empty=100, quote=40)
     cases = []
     for fam, opts in FAMILIES:
         for _ in range(n[fam]):
             f = gen_struct(rng, tier, opts)
             cases.append(dict(kind='wf', family=fam, struct=f, file=render(f), queries=gen_queries(rng, f, tier)))
-    nm = 40 if tier == 'quick' else 600
+    nm = 30 if tier == 'quick' else 600
     for _ in range(nm):
         f = gen_struct(rng, tier, dict(blank=rng.random() < 0.5))
         data = mutate_bytes(rng, render(f))
@@ -515,6 +546,7 @@ def run(res, rng, tier):
     obs = core.run_harness('c19', [harness_case(c) for c in cases], jobs=4)
     terms = []
     ncoq = 0
+    nsh = 4 if tier == 'quick' else 16
     for c, o in zip(cases, obs):
         res.evaluations += 1 + len(c['queries'])
         res.count('file/%s/recs=%d' % (c['family'], len(c['struct']['recs']) if c['struct'] else -1))
@@ -537,10 +569,10 @@ def run(res, rng, tier):
             res.count('query/open=%d%s' % (qo['open'], '/panic' if qo.get('panic') else ''))
         if c['kind'] == 'wf':
             judge(res, c, o)
-        sel = coq_select(rng, c, o, 6 if tier == 'quick' else 12)
+        sel = coq_select(rng, c, o, 5 if tier == 'quick' else 12)
         ncoq += 1 + len(sel)
         terms.append((c, o, coq_case(c, o, sel)))
-    bad, err = core.coq_mismatches(HEADER, 'c19case', 'c19_agree', [t[2] for t in terms], 'c19', shard=max(12, (len(terms) + 3) // 4))
+    bad, err = core.coq_mismatches(HEADER, 'c19case', 'c19_agree', [t[2] for t in terms], 'c19', shard=max(12, (len(terms) + nsh - 1) // nsh))
     if err:
         res.corr_bad.append(dict(error=err))
     for i in bad:
@@ -548,7 +580,7 @@ def run(res, rng, tier):
         res.corr_bad.append(dict(case=dict(file=c['file'], text=bytes(c['file']).decode('latin1'), queries=c['queries']), obs=strip(o),
                                  note='Coq model of NewIndex/WriteTo/ReadFrom/Seq.Read (or the rendered structure) disagrees with the implementation'))
     # ReadFrom on free TSV text: correspondence only
-    ntsv = 100 if tier == 'quick' else 2000
+    ntsv = 80 if tier == 'quick' else 2000
     tcases = [gen_tsv(rng) for _ in range(ntsv)]
     tobs = core.run_harness('c19', [dict(tsv=t, tsv_only=True) for t in tcases])
     tterms = []
